@@ -47,7 +47,7 @@ pub fn take_deps() -> Vec<String> {
     DEPS.with(|l| std::mem::take(&mut *l.borrow_mut()))
 }
 
-#[unimock(api=UMock, unmock_with=[_, real_r1, _, _, real_d1, _, _])]
+#[unimock(api=UMock, unmock_with=[_, real_r1, _, _, real_d1, _, _, _, _])]
 pub trait U {
     fn r0(&self, a: u8) -> Val;
     fn r1(&self, a: u8) -> Val;
@@ -60,6 +60,12 @@ pub trait U {
     }
     fn t0(&self, a: u8) -> Tok;
     fn b0(&self, a: u8) -> &Val;
+    /// required method whose answer (in the lifecycle mock) lends a value through the instance it is given
+    fn lendreq(&self, a: u8) -> Val;
+    /// provided method with a pinned receiver: its body reaches `lendreq` through the delegation helper
+    fn dp(self: std::pin::Pin<&mut Self>, a: u8) -> Val {
+        self.lendreq(a)
+    }
 }
 
 pub fn real_r1(dep: &impl U, a: u8) -> Val {
